@@ -119,9 +119,9 @@ fn main() {
         let n = toks.len();
         let res = std::panic::catch_unwind(move || {
             let mut ctx = Ctx::default();
-            for (i, t) in toks.iter().enumerate() { ctx.tokens.push(*t); ctx.spans.push(2 * i..2 * i + 1); }
+            for (i, t) in toks.iter().enumerate() { ctx.tokens.push(*t); ctx.spans.push(i..i + 1); }
             SCRIPT.with(|s| *s.borrow_mut() = (script, 0)); LOG.with(|l| l.borrow_mut().clear());
-            let src: String = "x ".repeat(n);
+            let src: String = "x".repeat(n);
             let mut diags: Vec<Diagnostic> = vec![];
             let p = Parser::new_with_context(&src, &mut diags, ctx);
             let cst = match entry.as_str() { %(entries)s, _ => panic!("entry") };
@@ -223,7 +223,7 @@ def make_harness(text, want_native=True, log=None):
     alltoks = ['EOF'] + eofs + toks + ['Error']
     entries = ['"parse" => p.parse(&mut diags)'] + [f'"parse_{p}" => p.parse_{p}(&mut diags)' for p in parts]
     main = MAIN_TEMPLATE % dict(tokmatch=', '.join(f'"{t}" => Token::{t}' for t in alltoks), entries=', '.join(entries))
-    key = hashlib.sha256((gen + '\0' + lib + '\0' + main + '\0v5').encode()).hexdigest()[:24]
+    key = hashlib.sha256((gen + '\0' + lib + '\0' + main + '\0v6').encode()).hexdigest()[:24]
     d = os.path.join(WORK, 'h', key)
     if not (os.path.exists(os.path.join(d, 'meta.json')) and os.path.exists(os.path.join(d, 'mir.txt'))
             and (not want_native or os.path.exists(os.path.join(d, 'native')))):
